@@ -189,6 +189,39 @@ fn in_range(net: &RealNet, i: usize, key: &RecordKey, range: &Option<ant_evm::U2
 /// C09 on the real network: paid uploads replicate as fresh records, silently seeded divergent versions converge
 /// through the real periodic replication.
 pub fn c09_case(cx: &mut Cx) {
+    // Progress clauses of this lane (something did not arrive / did not converge at the fixpoint) run on real threads and
+    // real sockets: a shortfall counts only if a SECOND run of the same seeded scenario on a fresh network falls short
+    // again. One that does not reproduce cannot be told from an unlucky timing (it is counted, never judged). Safety
+    // clauses are not affected: whatever they report in the first run stands.
+    let is_progress = |sig: &str| sig.starts_with("realnet:replicas-did-not-converge") || sig.starts_with("realnet:record-not-replicated") || sig.starts_with("realnet:chunk-not-replicated");
+    let rng0 = cx.rng.clone();
+    let before = cx.report.violations.len();
+    c09_once(cx);
+    let fresh: Vec<usize> = (before..cx.report.violations.len()).filter(|i| is_progress(&cx.report.violations[*i].signature)).collect();
+    if fresh.is_empty() {
+        return;
+    }
+    // set the first run's progress shortfalls aside and run the scenario again
+    let mut first_run = vec![];
+    for i in fresh.into_iter().rev() {
+        first_run.push(cx.report.violations.remove(i));
+    }
+    cx.count("realnet:progress-shortfall-seen-once(second-run-started)");
+    cx.rng = rng0;
+    let before2 = cx.report.violations.len();
+    c09_once(cx);
+    let again = (before2..cx.report.violations.len()).any(|i| is_progress(&cx.report.violations[i].signature));
+    if again {
+        cx.count("realnet:progress-shortfall-reproduced-in-a-second-run");
+    } else {
+        cx.count("realnet:progress-shortfall-not-reproduced(not-judged)");
+        for v in &first_run {
+            cx.log(format!("not reproduced, not judged: {} :: {}", v.signature, v.detail));
+        }
+    }
+}
+
+fn c09_once(cx: &mut Cx) {
     let n = cx.rng.gen_range(6..=9);
     let Some(mut net) = start(cx, "c09r", &vec![true; n]) else { return };
     let res = c09_inner(cx, &mut net, n);
